@@ -152,6 +152,23 @@ let exec toks =
       String.concat " "
         (List.concat_map (fun h -> [ eqr (hand_rank_value c h) v0; eqr (hand_rank_value_validated c h) w0 ]) [ h1; h2; h3 ]
          @ [ s_b (shift_suit_hand h3 = ws) ])
+  | "relabel" -> (
+      let ws = List.tl (nums ()) in
+      let rec perms = function [] -> [ [] ] | l -> List.concat_map (fun x -> List.map (fun p -> x :: p) (perms (List.filter (( <> ) x) l))) l in
+      let four = [ n_of_string "0"; n_of_string "1"; n_of_string "2"; n_of_string "3" ] in
+      let v0 = hand_rank_value c ws and w0 = hand_rank_value_validated c ws in
+      match (v0, w0) with
+      | Ok v0, Ok w0 ->
+          let same = ref true and same_v = ref true in
+          List.iter
+            (fun p ->
+              let f s = match List.assoc_opt s (List.combine four p) with Some t -> t | None -> s in
+              let h = List.map (fun w -> create (get_card_rank w) (f (get_card_suit w))) ws in
+              (match hand_rank_value c h with Ok v1 -> same := !same && v1 = v0 | _ -> same := false);
+              match hand_rank_value_validated c h with Ok w1 -> same_v := !same_v && w1 = w0 | _ -> same_v := false)
+            (perms four);
+          String.concat " " [ s_b !same; s_b !same_v ]
+      | _ -> "P")
   | "chain7" | "chain7s" -> (
       let ws = nums () in
       let skip l k = List.filteri (fun i _ -> i <> k) l in
